@@ -18,6 +18,16 @@ CHECKS={
    "Part (a) of the design: all histories up to the bound over valid appends/reads plus every rejection cause (oversized entry, >2000 entries, empty batch, over-long topic on both paths, batch containing an oversized entry, first op on a topic failing), with reopen/restart; the model drops failed appends, so any trace of one (readable entry, changed count, duplicated or lost neighbour, before or after restart) is a discrepancy. Injected I/O failures and concurrent visibility are parts (b)/(c) (see DESIGN.md)."),
  "C06": seq("C06", BFS+"with Reopen/Restart events (<=2 quick, <=3 thorough), same FIFO model with restarts invisible",
    "All histories up to the bound of appends (including multi-unit entries), batch appends, consuming and peeking reads, rejected ops, and reopen (same process) / restart events; StrictlyAtOnce is compared exactly, AtLeastOnce for no-loss/no-reorder with bounded redelivery; counts are compared as well."),
+ "C02": seq("C02", BFS+"every non-consuming op applied to every reached state and compared differentially (with / without the op) on drain and restart+drain suffixes; peek vs immediately following consuming read",
+   "At every state reached by the bounded BFS over mutating ops (appends, batch appends, consuming reads, one restart), every peek (read_next / batch_read with checkpoint=false, 4 budgets) and every offset-addressed read (4-8 offsets incl. 0, mid-entry, last byte, past the end; checkpoint true and false) is executed and (ii) the observations of a following drain of all topics, and of restart + drain, must equal those of the same suffix without the op (results and counts), (iii) a peek must return exactly what the immediately following consuming read with the same arguments returns, (iv) offset reads may only return appended entries of the topic in append order, the first possibly a proper suffix. The reclamation-bookkeeping clause is decided by C12's exploration (peeks are in its alphabet)."),
+ "C12": seq("C12", BFS+"background reclaimer gated (one loop iteration with deletions per ReclaimTick), each execution in a pristine forked process, FIFO model in-process and after restart",
+   "Histories that fully allocate a file in the small geometry (4 blocks per file) from prepared roots, then all sequences up to the bound of consuming reads of both APIs, empty polls, peeks, reclaim ticks and a restart; every reached state is additionally followed by [reclaim tick, drain all] and [reclaim tick, restart, drain all]. Any unconsumed entry that became unreadable (in process or after restart) is a violation; so is a redelivery after restart in StrictlyAtOnce mode."),
+ "C13": seq("C13", BFS+"2-3 live instances (distinct keys / same key in distinct data dirs) in one pristine process per execution, per-instance FIFO/count/marker model, reclaimer gated",
+   "All interleavings (as sequences) up to the bound of appends, consuming reads, reclaim ticks and reopen of one instance, over two or three live instances in one process, from roots including one where both instances own a fully allocated file; each instance's reads, counts and markers are compared with its own reference model, and every state is followed by [reclaim tick, restart, drain both]. One genuine defect is recorded as a known finding (K-C13-block-id-collision)."),
+ "C14": dict(engine="walmc-seq", category="model_checking", design="C14",
+   technique="exhaustive enumeration of namespace keys over a 9-symbol alphabet up to a length bound, through every constructor, on the real engine with a directory-tree oracle",
+   text="Every key of length 0..3 (quick; 0..4 thorough for the builder with explicit data dir, 0..3 for the other six constructors) over {a - _ . / space NUL e-acute backslash} plus dot/dot-dot specials and a 300-byte key is opened through new_for_key, with_consistency_for_key, with_consistency_and_schedule_for_key, the builder with and without data_dir, WALRUS_INSTANCE_KEY and the thread namespace; after one append the whole sandbox tree is listed and every file must lie under data/<one real directory>/.",
+   note="Trusted: the directory walk of the sandbox root; env-based constructors run in a forked child each. Only the listed alphabet and lengths are covered."),
  "C15": seq("C15", BFS+"count oracle (appended minus consumed) evaluated after every op",
    "All histories up to the bound over appends, batch appends, rejected ops, consuming reads, peeks, offset reads, reopen and restart on two topics; after every op the reported count of every topic must equal appended minus consumed of the reference model (after a restart only in StrictlyAtOnce mode)."),
  "C16": seq("C16", BFS+"every history executed once per backend, API-level observation streams compared",
